@@ -1,12 +1,12 @@
 #!/bin/bash
 # runmutant.sh <diff> <Cxx> [runs]  — apply to /repo, build, run the check with --no-evidence, revert.
-d=$(readlink -f $1); id=$2; runs=${3:-40000}
+d=$(readlink -f $1); id=$2; runs=${3:-}
 trap 'git -C /repo checkout -- . 2>/dev/null' EXIT INT TERM
 git -C /repo apply "$d" || { echo "APPLY FAILED $d"; exit 3; }
 ( cd /verif/dsim && cargo build --release --offline 2>/verif/work/build.log ) || { echo "BUILD FAILED"; tail -20 /verif/work/build.log; exit 3; }
 if [ "$id" = "C16" ]; then ( cd /verif/dsim && cargo build --release --offline --no-default-features --target-dir target-nopb 2>/verif/work/build.log ) || { echo "BUILD FAILED"; tail -20 /verif/work/build.log; exit 3; }; fi
 BIN=/verif/dsim/target/release/dsim
 if [ "$id" = "C19" ]; then ( cd /verif/dsim-static && cargo build --release --offline 2>/verif/work/build.log ) || { echo "BUILD FAILED"; tail -20 /verif/work/build.log; exit 3; }; BIN=/verif/dsim-static/target/release/dsim-static; fi
-VERIF_TIMEOUT_S=120 VERIF_DIR=/verif/work/mut timeout 300 $BIN check $id --runs $runs --no-evidence | grep -E "^VIOLATION|^\s+\[|HARNESS|^C[0-9]+ " | cut -c1-260
+VERIF_TIMEOUT_S=120 VERIF_DIR=/verif/work/mut timeout 300 $BIN check $id ${runs:+--runs $runs} --no-evidence | grep -E "^VIOLATION|^\s+\[|HARNESS|^C[0-9]+ " | cut -c1-260
 rc=${PIPESTATUS[0]}
 echo "== $(basename $d) $id exit=$rc"
